@@ -765,6 +765,51 @@ func runC10(c *fw.Case) {
 		}
 	}
 
+	// empty And/Or nested in clauses of the same and of the other kind
+	{
+		valid := qframe.Filter{Column: iC, Comparator: "isnotnull"}
+		nested := []struct {
+			name string
+			cl   func() qframe.FilterClause
+		}{
+			{"And(valid, And())", func() qframe.FilterClause { return qframe.And(valid, qframe.And()) }},
+			{"Or(valid, Or())", func() qframe.FilterClause { return qframe.Or(valid, qframe.Or()) }},
+			{"Or(And(valid), Or())", func() qframe.FilterClause { return qframe.Or(qframe.And(valid), qframe.Or()) }},
+			{"Not(And(valid, And()))", func() qframe.FilterClause { return qframe.Not(qframe.And(valid, qframe.And())) }},
+			{"And(And())", func() qframe.FilterClause { return qframe.And(qframe.And()) }},
+			{"Or(Or())", func() qframe.FilterClause { return qframe.Or(qframe.Or()) }},
+			{"And(Or())", func() qframe.FilterClause { return qframe.And(qframe.Or()) }},
+			{"Or(And())", func() qframe.FilterClause { return qframe.Or(qframe.And()) }},
+			{"And(valid, Or(valid, And()))", func() qframe.FilterClause { return qframe.And(valid, qframe.Or(valid, qframe.And())) }},
+			{"Or(valid, And(valid, Or(Or())))", func() qframe.FilterClause { return qframe.Or(valid, qframe.And(valid, qframe.Or(qframe.Or()))) }},
+		}
+		for _, nc := range nested {
+			nc := nc
+			judge("Filter with "+nc.name, "Filter", true, func() qframe.QFrame { return qf.Filter(nc.cl()) })
+			if c.Failed() {
+				return
+			}
+		}
+	}
+	// an aggregation the column rejects, followed (or preceded) by valid ones
+	{
+		invalidAggs := []qframe.Aggregation{{Fn: "nosuch", Column: iC}, {Fn: "sum", Column: sC}, {Fn: "majority", Column: iC}, {Fn: func(v []float64) float64 { cb.hit(); return 0 }, Column: iC}, {Fn: 17, Column: fC}}
+		validAggs := []qframe.Aggregation{{Fn: "sum", Column: iC, As: "ok1"}, {Fn: "count", Column: fC, As: "ok2"}, {Fn: "max", Column: fC, As: "ok3"}}
+		for i, bad := range invalidAggs {
+			bad := bad
+			bad.As = "bad"
+			for _, pos := range []int{0, 1, 2} {
+				list := append([]qframe.Aggregation(nil), validAggs...)
+				list = append(list[:pos], append([]qframe.Aggregation{bad}, list[pos:]...)...)
+				judge(fmt.Sprintf("Aggregate with invalid aggregation #%d (%s on %s) at position %d of %d", i, describeVal(bad.Fn), bad.Column, pos, len(list)), "Aggregate", true, func() qframe.QFrame {
+					return qf.GroupBy(groupby.Columns(bC)).Aggregate(list...)
+				})
+				if c.Failed() {
+					return
+				}
+			}
+		}
+	}
 	// every aggregation over a column that does not exist, and every grouping by one
 	for _, fn := range []interface{}{"count", "sum", "min", "max", "avg", "majority", func(v []int) int { cb.hit(); return 0 }, func(v []*string) *string { cb.hit(); return nil }} {
 		for _, as := range []string{"", "out"} {
